@@ -904,6 +904,55 @@ def exec_stream_fault(ctx, case: Dict[str, Any]) -> None:
                sample={"case": case, "outcome": [out[0], type(out[1]).__name__], "duration": dur})
 
 
+def exec_slow_writer(ctx, case: Dict[str, Any]) -> None:
+    """The write side is slow but not stuck: the transport takes the request only d seconds into the call. The deadline
+    still counts from the call: a response arriving after `timeout` is late whatever d was, and without a response the
+    call ends at `timeout`, not at d + timeout."""
+    from chuk_mcp.protocol.messages.send_message import send_message
+    from vf.props.c14 import StallingSend
+    d, r, T = case["taken_at"], case["response_at"], case["timeout"]
+
+    async def main():
+        pipe = Pipe(buffer=1000)
+        loop = asyncio.get_running_loop()
+        write = StallingSend(pipe.write, 0, d, loop)
+
+        async def server():
+            req = await pipe.srv_recv.receive()
+            if r is None:
+                return
+            await vsleep_until(r)
+            pipe.srv_send.send_nowait(_build({"jsonrpc": "2.0", "id": req.id, "result": {"answered_at": r}}, "parse"))
+        st = asyncio.create_task(server(), name="server")
+        t0 = loop.time()
+        try:
+            out = ("return", await send_message(pipe.read, write, "tools/call", {"a": 1}, timeout=T))
+        except BaseException as e:  # noqa
+            if isinstance(e, (KeyboardInterrupt, SystemExit)):
+                raise
+            out = ("raise", e)
+        dur = loop.time() - t0
+        st.cancel()
+        return out, dur
+    try:
+        (out, dur), _ = run_virtual(main, max_iterations=50_000)
+    except HangDetected as e:
+        ctx.violation("hang", f"slow writer: {e}", case)
+        return
+    ctx.count("slow_writer_calls")
+    in_time = r is not None and r < T - EPS
+    ambiguous = r is not None and abs(r - T) <= EPS
+    if out[0] == "return" and not in_time and not ambiguous:
+        ctx.violation("response_accepted_after_deadline", f"request taken by the transport at {d}, response at {r}, timeout {T}: the "
+                      f"call returned {out[1]!r} after {dur}s", case)
+    if out[0] == "raise" and in_time:
+        ctx.violation("wrong_outcome", f"request taken at {d}, response at {r} (before the deadline {T}): the call raised {out[1]!r}", case)
+    if dur > T + EPS:
+        ctx.violation("deadline_overrun", f"request taken by the transport at {d}: the call ended after {dur}s (timeout {T})", case)
+    ctx.record(case, shape=[out[0], type(out[1]).__name__, round(dur, 3)], nontrivial=True, cls="slow_writer",
+               sample={"case": case, "outcome": [out[0], type(out[1]).__name__], "duration": dur})
+
+
 def stdio_histories(ctx):
     mixes = [["notification"], ["other_response", "notification", "other_request"], ["same_id_request", "progress", "other_error"],
              ["int_twin", "notification"]]
@@ -916,6 +965,12 @@ def stdio_histories(ctx):
 
 
 def run(ctx):
+    for T in (0.6, 2.0):
+        for d in (0.1, 0.4 * T, 0.9 * T):
+            for r in (None, d + 0.05, T - 0.01, T + 0.05, d + T - 0.05, d + T + 0.5):
+                case = {"slow_writer": True, "taken_at": round(d, 3), "response_at": None if r is None else round(r, 3), "timeout": T}
+                if ctx.mine():
+                    exec_slow_writer(ctx, case)
     for fault in ("write:broken", "write:closed", "write:oserror", "read:end", "read:end_after_distractor", "write:blocks"):
         for t in (0.0, 0.3, 0.5, TIMEOUT - 0.01):
             case = {"via": "stream_fault", "fault": fault, "t": t}
@@ -950,6 +1005,9 @@ def run(ctx):
 
 
 def replay(ctx, case):
+    if case.get("slow_writer"):
+        exec_slow_writer(ctx, case)
+        return
     if case.get("via") == "stream_fault":
         exec_stream_fault(ctx, case)
         return
